@@ -485,7 +485,13 @@ struct RunOut {
     last_vals: BTreeMap<u32, i64>,
     /// the computing entries the target owned when the companions were started
     owned_at_gate: Vec<u32>,
+    /// (`--state`) op lines and `#D <digest>` lines of the quiescent points of this run (input of `drv_engine inv`)
+    inv: Vec<String>,
+    state_dumps: u64,
 }
+
+/// `--state`: dump the digest of every key (eng::state_digest) at every quiescent point and judge it (state-invariant oracle)
+static STATE: AtomicBool = AtomicBool::new(false);
 
 enum Driven<T> { Done(T), Cut, Timeout }
 
@@ -683,6 +689,35 @@ async fn join_companions(comps: Vec<Comp>, j: &mut Judge<'_>, idx: usize, panic_
     all
 }
 
+/// A quiescent point: nothing is in flight (the fault happened, detached continuations finished, or a later op completed).
+/// The digest of every key is judged by the state-invariant oracle (eng::state_invariant_check: verified nodes hold
+/// from-scratch values, backward edges = inverse of the recorded dependencies, firewall sets of verified nodes follow from
+/// the dependencies) and appended, after `opline`, to the run's input for the Lean checker `drv_engine inv`.
+/// An input / external whose last write was cut may have either value: the stored value of its node decides.
+async fn dump_point<V: Variant>(engine: &Arc<Engine<V>>, j: &Judge<'_>, opline: String, idx: usize, out: &mut RunOut) {
+    if !STATE.load(Ordering::Relaxed) { return; }
+    let p = j.p;
+    if !p.spec_targets().is_empty() || !is_acyclic(p) { return; }
+    let digest = match tokio::time::timeout(Duration::from_secs(4), state_digest(engine, p)).await { Ok(d) => d, Err(_) => { out.fails.push(("C05:state-invariant:dump-hang".into(), format!("op {idx}: the read-only dump did not complete"))); return; } };
+    out.state_dumps += 1;
+    let leaves = digest_leaf_values(&digest);
+    let mut t = j.truth_now();
+    for (k, allowed) in &j.uncertain_in { if let Some(v) = leaves.get(k) { if allowed.contains(v) { t.inputs.insert(*k, *v); } } }
+    for (k, allowed) in &j.uncertain_ex { if let Some(v) = leaves.get(k) { if allowed.contains(v) { t.ext.insert(*k, *v); } } }
+    // an input that was never set has no from-scratch value; neither has anything that reads it
+    let value_of = |k: u32| -> Option<i64> {
+        fn defined(p: &Program, t: &Truth, k: u32) -> bool { match p.kind(k) { Kind::Input => t.inputs.contains_key(&k), Kind::External => true, _ => { let mut r = vec![]; p.nodes[k as usize].expr.reads(&mut r); r.iter().all(|x| defined(p, t, *x)) } } }
+        if !defined(p, &t, k) { return None; }
+        std::panic::catch_unwind(AssertUnwindSafe(|| from_scratch(p, &t, k))).ok()
+    };
+    for (which, d) in state_invariant_check(p, &digest, &value_of) {
+        let sig = format!("C05:state-invariant:{which}");
+        if out.fails.iter().filter(|f| f.0 == sig).count() < 2 { out.fails.push((sig, format!("op {idx} (`{}`), at a quiescent point{}: {d}", opline.chars().take(60).collect::<String>(), out.cut_label.as_ref().map(|l| format!(" after the fault at {l}")).unwrap_or_default()))); }
+    }
+    out.inv.push(opline);
+    out.inv.push(format!("#D {digest}"));
+}
+
 /// Runs the history with one fault at the target op.  All awaits on the engine go through `drive` (timeouts = hang).
 async fn run_fault<V: Variant>(case: &Case, target: usize, fault: &Fault, kv: &MemKv, trace_on: bool) -> RunOut {
     let mut out = RunOut::default();
@@ -768,6 +803,8 @@ async fn run_fault<V: Variant>(case: &Case, target: usize, fault: &Fault, kv: &M
         }
     }
 
+    // state dumps: runs with an injected fault whose continuations are not kept suspended (every point judged is quiescent)
+    let state_run = *fault != Fault::Count && !fault.hold();
     let mut ok = true;
     for (idx, op) in case.ops.iter().enumerate() {
         if !ok { break; }
@@ -776,6 +813,7 @@ async fn run_fault<V: Variant>(case: &Case, target: usize, fault: &Fault, kv: &M
                 Op::Session(ws) => { ok = session(&engine, &sh, ws, idx, &mut out, held).await; j.session_applied(ws); }
                 Op::Round(ks) => { ok = probe(&engine, &sh, &mut j, idx, &mut out).await && round(&engine, &sh, ks, &mut j, idx, &mut out).await; }
             }
+            if ok && state_run && !held { dump_point(&engine, &j, op.render(), idx, &mut out).await; }
             if held && matches!(op, Op::Session(_)) {
                 // the suspended guarded continuation is released only now (after one more committed session)
                 s.release(); held = false; settle().await;
@@ -948,8 +986,24 @@ async fn run_fault<V: Variant>(case: &Case, target: usize, fault: &Fault, kv: &M
             }
             out.summary = s.summary();
             s.mark(&format!("0 settled\t{}", s.model_summary()));
+            if state_run {
+                // the target as far as it took effect: the writes of a session that were applied (a cut write counts if the
+                // stored input shows it), the round that was cut short / unwound by the panic
+                let line = match op {
+                    Op::Round(_) => op.render(),
+                    Op::Session(_) => {
+                        let mut ws = out.applied_writes.clone();
+                        if let Some(Write::Set(k, v)) = &out.cut_write { if j.uncertain_in.contains_key(k) { ws.push(Write::Set(*k, *v)); } }
+                        let leaves = digest_leaf_values(&state_digest(&engine, p).await);
+                        ws.retain(|w| match w { Write::Set(k, v) => !j.uncertain_in.contains_key(k) || leaves.get(k) == Some(v), _ => true });
+                        Op::Session(ws).render()
+                    }
+                };
+                dump_point(&engine, &j, line, idx, &mut out).await;
+            }
             // the cut-short / panicked round is issued again
-            if let Op::Round(ks) = op { ok = probe(&engine, &sh, &mut j, idx, &mut out).await && round(&engine, &sh, ks, &mut j, idx, &mut out).await; }
+            if let Op::Round(ks) = op { ok = probe(&engine, &sh, &mut j, idx, &mut out).await && round(&engine, &sh, ks, &mut j, idx, &mut out).await;
+                if ok && state_run { dump_point(&engine, &j, op.render(), idx, &mut out).await; } }
         }
     }
     if held { s.release(); settle().await; }
@@ -957,6 +1011,7 @@ async fn run_fault<V: Variant>(case: &Case, target: usize, fault: &Fault, kv: &M
         // a final complete round: every key against the oracle
         let ks = all_keys_round(p);
         ok = probe(&engine, &sh, &mut j, case.ops.len(), &mut out).await && round(&engine, &sh, &ks, &mut j, case.ops.len(), &mut out).await;
+        if ok && state_run { dump_point(&engine, &j, Op::Round(ks.iter().copied().filter(|k| j.askable(*k)).collect()).render(), case.ops.len(), &mut out).await; }
     }
     settle().await;
     s.mark(&format!("0 end\t{}", s.model_summary()));
@@ -1201,6 +1256,7 @@ fn child_case<V: Variant>(case: &Case, max_cuts: u64, seed: u64, only: Option<(u
             emit(format!("{kind} {vsig}\top {} key {} got {} expected {} (fault at {})\t{tag}", m.0, m.1, m.2, m.3, o.cut_label.clone().unwrap_or_default()));
         }
         emit(format!("R {tag}\t{}\t{}\t{}", o.cut_label.clone().unwrap_or("-".into()), o.summary, o.detached));
+        if !o.inv.is_empty() { emit(format!("I # run {tag}")); for l in &o.inv { emit(format!("I {l}")); } emit(format!("J {}", o.state_dumps)); }
         if traced { emit("H".into()); for l in &o.trace { emit(format!("T {l}")); } }
         if let (None, Some(l)) = (&o.cut_label, expect_label) { emit(format!("X {tag} expected {l}")); }
     };
@@ -1300,6 +1356,7 @@ fn main() {
         let te: u64 = flag("--trace-every").map(|x| x.parse().unwrap()).unwrap_or(1).max(1);
         let mh: u64 = flag("--max-hangs").map(|x| x.parse().unwrap()).unwrap_or(3).max(1);
         let we: u64 = flag("--waiters-every").map(|x| x.parse().unwrap()).unwrap_or(1).max(1);
+        if rest.iter().any(|x| x == "--state") { STATE.store(true, Ordering::Relaxed); }
         if variant == "db" { child_case::<DbCfg>(&case, max_cuts, a.seed, only, resume, te, mh, we); } else { child_case::<MemCfg>(&case, max_cuts, a.seed, only, resume, te, mh, we); }
         return;
     }
@@ -1320,6 +1377,7 @@ fn run_child(exe: &std::path::Path, case_file: &str, variant: &str, max_cuts: u6
     cmd.args(["--trace-every", &trace_every.to_string()]);
     cmd.args(["--max-hangs", &max_hangs.to_string()]);
     cmd.args(["--waiters-every", &waiters_every.to_string()]);
+    if STATE.load(Ordering::Relaxed) { cmd.arg("--state"); }
     cmd.stdout(std::process::Stdio::piped()).stderr(std::process::Stdio::piped());
     let mut ch = cmd.spawn().unwrap();
     let so = ch.stdout.take().unwrap();
@@ -1355,6 +1413,8 @@ fn run_child(exe: &std::path::Path, case_file: &str, variant: &str, max_cuts: u6
 }
 
 fn parent(a: Args) {
+    if a.rest.iter().any(|x| x == "--state") { STATE.store(true, Ordering::Relaxed); }
+    let mut inv_lines: Vec<String> = vec![];
     let mut out = Out::new(&a.out);
     let exe = std::env::current_exe().unwrap();
     let quick = a.tier == "quick";
@@ -1446,6 +1506,12 @@ fn parent(a: Args) {
                         if f[0].starts_with("C05:hang") { hang_failures += 1; }
                         if failures.iter().filter(|x| x.sig == f[0]).count() < 3 { failures.push(Failure { sig: f[0].to_string(), desc: format!("[{name} {v_use}] {}", f[1]), case: replay }); }
                     }
+                    "I" => {
+                        // one block per run: `case`, the program, then op lines each followed by its `#D` line
+                        if body.starts_with("# run ") { inv_lines.push(text.lines().next().unwrap().to_string()); inv_lines.push(format!("# {ci} {name} {v_use} {}", &body[6..])); for l in text.lines().skip(1).take(case.program.nodes.len()) { inv_lines.push(l.to_string()); } }
+                        else { inv_lines.push(body.to_string()); }
+                    }
+                    "J" => { *dist.entry("state_dumps_judged_by_the_state_invariant_oracle".into()).or_default() += body.parse::<u64>().unwrap_or(0); *dist.entry("runs_with_state_dumps".into()).or_default() += 1; }
                     "M" => { *dist.entry("value_failures_also_in_baseline".into()).or_default() += 1; }
                     "S" => { *dist.entry("value_failures_in_cases_whose_baseline_fails_elsewhere".into()).or_default() += 1; }
                     "Q" => { *dist.entry("value_failures_also_in_the_equivalent_history_without_the_cut".into()).or_default() += 1; }
@@ -1482,5 +1548,6 @@ fn parent(a: Args) {
     rep.push_str(&format!("\"distribution\":{{{}}},", dist.iter().map(|(k, v)| format!("{}:{}", jstr(k), v)).collect::<Vec<_>>().join(",")));
     rep.push_str(&format!("\"oracle_failures\":[{}]", failures.iter().map(|f| format!("{{\"sig\":{},\"desc\":{},\"case\":{}}}", jstr(&f.sig), jstr(&f.desc), jstr(&f.case))).collect::<Vec<_>>().join(",")));
     rep.push('}');
+    if STATE.load(Ordering::Relaxed) { std::fs::write(format!("{}/inv_ops.txt", a.out), inv_lines.join("\n") + "\n").unwrap(); }
     out.finish(&rep);
 }
